@@ -83,6 +83,8 @@ pub fn run(ops: &str, out: &mut impl Write, orc: &mut impl Write) {
                             let after = total(&norm(&hist));
                             if r as u128 != after - before {
                                 writeln!(orc, "FAIL C09 case={id} op={i} merge({a},{b}) returned {r}, new distinct bytes {}", after - before).unwrap();
+                                // the receiver's progress figure is the running sum of these return values
+                                writeln!(orc, "FAIL C20 case={id} op={i} merge({a},{b}) returned {r} (added to the receiver's progress), new distinct bytes {}", after - before).unwrap();
                             }
                             if progress != after {
                                 writeln!(orc, "FAIL C09 case={id} op={i} running progress {progress} but {after} distinct bytes held").unwrap();
